@@ -89,6 +89,13 @@ func c04Oracle(c mgCase, items [][]string, schemas []*ast.Schema, outs []mgOutco
 					if g := implGetURL(o, [][]string{{T, f.Name, "%#!"}}); g[0] != "ok:"+u {
 						bad(o, "PlanningContext.GetURL(%s, %s) = %s, owner is %s", T, f.Name, g[0], u)
 					}
+					// … and below the root of ANY operation (a payload field may return a root type):
+					// the parent step's service is the fallback, the owner must still win
+					for _, kind := range []ast.Operation{ast.Query, ast.Mutation, ast.Subscription} {
+						if g := implGetURLOp(o, kind, T, f.Name, "http://parent-step.invalid/"); g != "ok:"+u {
+							bad(o, "PlanningContext.GetURL(%s, %s) while planning a %s with another service as fallback = %s, owner is %s", T, f.Name, kind, g, u)
+						}
+					}
 				}
 			}
 			isNode, ok := o.tm.GetTypeIsImplementsNode(T)
